@@ -3,10 +3,12 @@ package main
 import (
 	"context"
 	"encoding/json"
+	"errors"
 	"flag"
 	"fmt"
 	"os"
 	"runtime"
+	"sync/atomic"
 	"time"
 
 	proto "github.com/kubewharf/kubebrain-client/api/v2rpc"
@@ -31,6 +33,7 @@ func cmdLeadRun(args []string) int {
 	stopAfter := fs.Int("stopafter", -1, "the old leader stops after this many requests (-1: after all)")
 	future := fs.Bool("future", false, "the old leader also serves a guarded update that names a revision far in the future, then more writes")
 	follower := fs.Bool("follower", false, "the new leader is a node that was a follower and served a read (it adopted the old leader's revision at that time) before the old leader's last writes")
+	tsoFault := fs.Int("tsofault", 0, "the engine's timestamp oracle fails on its n-th call while the restarted node campaigns (0: never)")
 	fs.Parse(args)
 	kb.QuietLogs()
 	backend.VerifSetRetryIntervals(0, time.Millisecond)
@@ -60,6 +63,18 @@ func cmdLeadRun(args []string) int {
 		standby = nil
 		if env == nil {
 			env = newNode(id)
+		}
+		if *tsoFault > 0 && probeEarly {
+			// (the restarted node only) one failing answer of the oracle during the take-over: the election retries, and whatever
+			// the node does, it must not hand out revisions below what is stored
+			var calls int64
+			n := int64(*tsoFault)
+			env.Store.TsoFault = func() error {
+				if atomic.AddInt64(&calls, 1) == n {
+					return errors.New("injected: oracle unavailable")
+				}
+				return nil
+			}
 		}
 		started := make(chan struct{})
 		le := leader.NewLeaderElection(env.B, kb.Metrics(), func(context.Context) { close(started) }, func() {})
